@@ -10,6 +10,8 @@
    Fault family: one batch fails every attempt (5xx), the RetriableBatcher gives up, the recycled Batch object and the
    surviving worker data serve the next batches; spec mutant M_ReencodeAfterGiveUp (encode-once cache keyed by the
    Batch object, not dropped on give-up) must violate BodyIs.
+   Routing family: explicit routing values per event (none / a / b) over successive batches; the kafka per-worker record
+   slots are modelled; spec mutant M_TopicPerEvent (topic set only on slot allocation / when different) must violate RoutingOwn.
 2. The cases are replayed into the REAL output plugins (elasticsearch, kafka, file, splunk, http, loki, gelf), each
    event carrying adversarial values in the routing/label fields; every captured body is parsed back in the sink's
    framing (abstraction function) and compared with the expectation: BodyIs, FramingOK, SplitCovers.
@@ -36,6 +38,14 @@ QUICK_DEFAULT_N = 2000
 FAULT_SINKS = {"elasticsearch", "http", "splunk", "loki", "kafka"}   # RetriableBatcher + a sink that can answer 5xx
 
 
+ROUTE_SINKS = {"kafka", "elasticsearch", "splunk", "gelf"}             # the routing value is taken per event
+
+
+def is_routing(c):
+    """routing family: explicit routing values per event, >= 2 batches through the same worker"""
+    return len(c["batches"]) > 1 and any(e.get("route", "any") != "any" for b in c["batches"] for e in b)
+
+
 def is_fault(c):
     return any(c.get("fail") or [])
 
@@ -58,7 +68,8 @@ def rejects(pat, ids):
 
 def shape_key(c):
     return json.dumps({"split": c["split"], "pats": c["pats"], "fail": c.get("fail"), "dq": c.get("dq", False),
-                       "b": [[[e["id"], e["kind"], e["size"]] for e in b] for b in c["batches"]]}, sort_keys=True)
+                       "b": [[[e["id"], e["kind"], e["size"], e.get("route", "any")] for e in b] for b in c["batches"]]},
+                      sort_keys=True)
 
 
 def compact(c):
@@ -94,6 +105,10 @@ def judge(sink, c, r):
             for fr in q.get("framing") or []:
                 recs.append(dict(base, kind="framing", where=fr["where"], id=fr["id"], text=fr["text"],
                                  index_value_needs_json_escaping=vals.get(fr["id"]) in NEEDS_ESC))
+            for fr in q.get("routing") or []:
+                # the topic / index / copied field / host next to an event is not the one of that event
+                recs.append(dict(base, kind="routing", where=fr["where"], id=fr["id"], text=fr["text"],
+                                 val_class=vals.get(fr["id"])))
             for i in q.get("doc_diff") or []:
                 recs.append(dict(base, kind="doc_differs", id=i, val_class=vals.get(i)))
             if failing and q.get("st") == 500 and variant != "raw" and q["ids"] != payload:
@@ -129,6 +144,8 @@ def judge(sink, c, r):
 
 def nontrivial_key(sink, c):
     """distinct non-trivial case shapes: buffer reuse across batches, a parent to omit, a real split, a given-up batch"""
+    if is_routing(c) and sink in ROUTE_SINKS:
+        return (sink, "routing", tuple(tuple((e["kind"], e["route"]) for e in b) for b in c["batches"]))
     if is_fault(c):
         return (sink, c["split"], tuple(tuple((e["kind"], e["size"]) for e in b) for b in c["batches"]),
                 json.dumps([c["fail"], c.get("dq", False)]))
@@ -191,7 +208,7 @@ def run(ctx):
             raise vlib.Infra("strict SplitCovers with D14 off should hold: %s\n%s" % (r.violated, r.out[-2000:]))
         # spec mutants: each mechanism switch turned off must break an invariant
         mutants = {}
-        for sw in ("M_ResetBegin", "M_ResetBuf", "M_SkipParent", "M_ReencodeAfterGiveUp"):
+        for sw in ("M_ResetBegin", "M_ResetBuf", "M_SkipParent", "M_ReencodeAfterGiveUp", "M_TopicPerEvent"):
             m = bg.tlc("OutputPayload", "OutputPayload_mut.cfg", deadlock=False, timeout=900, workers=4,
                        overrides={sw: "FALSE"}, name="mutant %s off" % sw)
             if m.ok or m.kind != "invariant":
@@ -221,10 +238,12 @@ def run(ctx):
             n = QUICK_N.get(sink, QUICK_DEFAULT_N)
             if len(sel) > n:
                 # a fifth of the sample from the fault family (a batch given up after exhausted retries, more follow)
+                # and, where routing is per event, a fifth from the routing family
                 flt = [c for c in sel if is_fault(c) and not c["fail"][-1]]
-                rest = [c for c in sel if not (is_fault(c) and not c["fail"][-1])]
-                nf = min(len(flt), n // 5)
-                sel = rng.sample(flt, nf) + rng.sample(rest, min(len(rest), n - nf))
+                rtg = [c for c in sel if is_routing(c)] if sink in ROUTE_SINKS else []
+                rest = [c for c in sel if not (is_fault(c) and not c["fail"][-1]) and not (rtg and is_routing(c))]
+                nf, nr = min(len(flt), n // 5), min(len(rtg), n // 5)
+                sel = rng.sample(flt, nf) + (rng.sample(rtg, nr) if nr else []) + rng.sample(rest, min(len(rest), n - nf - nr))
         out = []
         for n, c in enumerate(sel):
             c = json.loads(json.dumps(c))
@@ -233,7 +252,15 @@ def run(ctx):
             esc_case = rng.random() < 0.2
             for b in c["batches"]:
                 for e in b:
-                    e["val"] = rng.choice(ALL_VALS if esc_case else SAFE_VALS)
+                    rt = e.get("route", "any")
+                    if rt == "none":
+                        e["val"] = rng.choice([1, 2])                 # routing field absent / empty
+                    elif rt == "a":
+                        e["val"] = 0
+                    elif rt == "b":
+                        e["val"] = rng.choice([5, 6, 7, 8, 9] if esc_case else [3, 4])
+                    else:
+                        e["val"] = rng.choice(ALL_VALS if esc_case else SAFE_VALS)
             out.append(c)
         return out
 
@@ -333,6 +360,7 @@ def run(ctx):
         "valid JSON is judged structurally (encoding/json); invalid UTF-8 inside a string is accepted",
         "http encoding.type=raw (30% of the http cases): an event without the encoded field has nothing to deliver and its empty line is tolerated",
         "fault family (elasticsearch, http, splunk, loki, kafka): one batch of the case is answered 5xx (kafka: produce error) on every attempt, retry=1, retention=1ms, fatal_on_failed_insert off, with and without a dead queue (a stand-in output); the given-up batch is a configured drop, the batches after it must be delivered exactly once with no byte of the given-up one",
+        "routing per event (kafka topic incl. 'still intact after the committed events' buffers were overwritten', elasticsearch _index, splunk copy_fields target, gelf host) is compared with the event's own value / the sink default; the elasticsearch index is compared only when the action line is valid JSON (values needing escaping are the known finding)",
         "the 413 clause is checked for elasticsearch only (as stated); only 413 answers are scripted, no other errors",
         "gzip off; byte-level escaping is checked only through 'parses back to the same JSON document'",
         "clickhouse / postgres / s3 / socket / stdout outputs are not covered",
